@@ -52,7 +52,9 @@ NOISE = [b'text\n', b'\n', b'Traceback (most recent call last):\n', b'1 2\n',
          b'1 2 x\n', b'\xff\xfe invalid utf-8\n', b'x' * 200000 + b'\n',
          b'0 0 0\n', b'7 1 0\n',
          # lines that only BEGIN like a header
-         b'3 0 0 hits/misses/evictions\n', b'1 2 3 4\n', b'12 0 0\tcache\n', b'5 0 0.5\n']
+         b'3 0 0 hits/misses/evictions\n', b'1 2 3 4\n', b'12 0 0\tcache\n', b'5 0 0.5\n',
+         # text that does not end in a newline (an atexit hook, a dying thread)
+         b'stray text without newline', b'\nException ignored in: <x>']
 STDOUTS = [b'', b'..\n.\n', b'y' * (1 << 20) + b'\n', b'\xff\xfe\n',
            b'Running x tests:\n  no newline at end', b'\n\n\n']
 
@@ -183,6 +185,8 @@ def cases(tier, seed):
         yield ['truncate', i, None]
         yield ['noise', i, None]
     yield ['big', None, tier]
+    yield ['huge', None, None]
+    yield ['latin1', None, None]
     yield ['ascii_parent', None, None]
     for wi in range(len(NOISE_WORLDS)):
         for ni in range(len(TEST_NOISE)):
@@ -192,7 +196,7 @@ def cases(tier, seed):
     # (b) crash matrix
     points = ['import', 'layer_setUp', 'test_setUp', 'test_body', 'test_tearDown',
               'layer_tearDown']
-    ways = ['exit0', 'exit3', 'kill', 'segv', 'sysexit0', 'sysexit3']
+    ways = ['exit0', 'exit3', 'kill', 'segv', 'sysexit0', 'sysexit3', 'rtsig']
     for mode in ('j2', 'resumed'):
         for pt in points:
             for w in ways:
@@ -268,7 +272,10 @@ def run_case(case):
                 s2 = dict(sig, noise=ni)
                 if spoof:
                     s2 = {'part': 'noise', 'spoofed_header': True}
-                judge('noise %r before' % nz[:20], rep, b'', nz + full, 1, full, True, viol, s2)
+                if nz.endswith(b'\n'):
+                    # (text without a final newline in front of the header
+                    # garbles the header line itself: not a case anyone can win)
+                    judge('noise %r before' % nz[:20], rep, b'', nz + full, 1, full, True, viol, s2)
                 judge('noise %r after' % nz[:20], rep, b'', full + nz, 1, full, True, viol, dict(sig, noise=ni, after=True))
                 judge('noise only %r' % nz[:20], rep, b'', nz, 2, full, False if not spoof else None, viol, dict(s2, only=True)) if not spoof else None
                 evals += 3
@@ -285,6 +292,35 @@ def run_case(case):
         for off in sorted(offs):
             judge('big cut at %d' % off, rep, b'', full[:off], 0, full, False, viol, dict(sig, cut=True))
             evals += 1
+    elif kind == 'huge':
+        # a complete report of more than 4 MiB (40 ids of 120 KiB, 3000 ids of 1.5 KiB)
+        for names in ([('t%02d_' % i) + 'x' * 120000 for i in range(40)],
+                      [('t%04d_' % i) + 'y' * 1500 for i in range(3000)]):
+            h = len(names) // 2
+            rep = (len(names) + 5, names[:h], names[h:])
+            full = make_report(*rep)
+            judge('complete report of %d bytes' % len(full), rep, b'..\n', full, 0, full, True, viol, {'part': 'huge'})
+            judge('cut report of %d bytes' % len(full), rep, b'', full[:len(full) - 7], 1, full, False, viol, {'part': 'huge', 'cut': True})
+            evals += 2
+    elif kind == 'latin1':
+        # a child whose stderr is not UTF-8 (legacy locale, PYTHONIOENCODING):
+        # the report must still be counted; names arrive with replacement characters
+        for fails, errs in ((['t\xebst_caf\xe9 (m.T)'], []), (['plain (m.T)'], ['gr\xf6\xdfe (m.T)']),
+                            (['a (m.T)', '\xe9 (m.T)', 'b (m.T)'], ['c (m.T)'])):
+            rep = (7, fails, errs)
+            full = make_report(*rep).decode('utf-8').encode('latin-1')
+            for v in (0, 1):
+                res, failures, errors, exc, state, printed = call_spawn(b'..\n', full, v)
+                evals += 1
+                sig = {'part': 'latin1'}
+                d = 'child report in latin-1 %r: ' % (full[:60],)
+                if exc is not None:
+                    viol.append(('exception_escaped', sig, d + repr(exc)))
+                    continue
+                if res.num_ran != 7 or len(failures) != len(fails) or len(errors) != len(errs):
+                    viol.append(('report_lost', sig, d + 'num_ran=%s, %d failures (expected %d), %d errors (expected %d): %r %r' % (res.num_ran, len(failures), len(fails), len(errors), len(errs), failures, errors)))
+                if not res.done:
+                    viol.append(('done_not_set', sig, d))
     elif kind == 'ascii_parent':
         # the parent's own stdout cannot encode what the child wrote (an
         # ASCII / cp1252 console): whatever happens to the banner, the error
